@@ -72,8 +72,12 @@ _Static_assert(sizeof(src_procs_map) / sizeof(*src_procs_map) == M_SRC_TYPE_END,
 static void src_priv_dtor(void *data) {
     ev_src_t *t = (ev_src_t *)data;
 
-    /* If a fd is deregistered for a RUNNING module, stop polling on it */
-    if (m_mod_is(t->mod, M_MOD_RUNNING)) {
+    /*
+     * If src is still registered in the poll set, stop polling on it (this also closes
+     * its internal fd); it does not matter whether its module is still RUNNING:
+     * a src may outlive its stopped module when an event still references it.
+     */
+    if (t->ev && t->mod) {
         M_MOD_CTX(t->mod);
         poll_set_new_evt(&c->ppriv, t, RM);
     }
